@@ -65,6 +65,16 @@ func lex(src string) ([]tok, error) {
 			for j < len(src) && (src[j] >= '0' && src[j] <= '9' || src[j] >= 'a' && src[j] <= 'f' || src[j] >= 'A' && src[j] <= 'F' || src[j] == 'x' || src[j] == 'X' || src[j] == '_') {
 				j++
 			}
+			if j+1 < len(src) && src[j] == '.' && src[j+1] >= '0' && src[j+1] <= '9' && !strings.HasPrefix(src[i:j], "0x") {
+				// decimal fraction: a float64 literal
+				j++
+				for j < len(src) && src[j] >= '0' && src[j] <= '9' {
+					j++
+				}
+				out = append(out, tok{"float", src[i:j]})
+				i = j
+				break
+			}
 			out = append(out, tok{"int", strings.ReplaceAll(src[i:j], "_", "")})
 			i = j
 		case ch == '_' || ch == '$' || ch >= 'a' && ch <= 'z' || ch >= 'A' && ch <= 'Z':
@@ -384,6 +394,8 @@ func (p *sparser) primary() Expr {
 	switch t.k {
 	case "int":
 		return &ELit{"int", t.s}
+	case "float":
+		return &ELit{"float", t.s}
 	case "str":
 		return &ELit{"string", t.s}
 	case "chr":
